@@ -1,11 +1,10 @@
 (* Model/Parse: internal/counter/parse.go Parse(filename, data).
 
    parse_with oob bs is Parse on the byte string bs, where oob stands for
-   the bytes that happen to follow data in memory: mappedFile.load32 tests
-   only `off >= len(data)` and then reads four bytes, so a bucket head
-   starting in the last three bytes of the input reads up to three bytes past
-   its end.  (Record fields are read only after entryAt's bounds tests, they
-   never leave the input.)  parse bs = parse_with [] bs reads zeros there. *)
+   the bytes that happen to follow data in memory.  mappedFile.load32 answers 0
+   unless off+4 <= len(data), so no load leaves the input: the branch of
+   head_word that would read oob is dead (Proofs.ParseFacts.parse_oob_indep,
+   for every input).  parse bs = parse_with [] bs. *)
 From Coq Require Import List NArith Bool.
 From Tele Require Import Lib.Bytes Lib.BytesN Gen.Consts Model.DecodeStack Model.Layout.
 Import ListNotations.
@@ -32,14 +31,16 @@ Fixpoint parse_meta (lines : list bytes) (acc : list (bytes * bytes)) : option (
       end
   end.
 
-Definition has_key (k : bytes) (acc : list (bytes * N)) : bool :=
-  existsb (fun kv => beq (fst kv) k) acc.
+Definition has_name (k : bytes) (seen : list bytes) : bool := existsb (fun x => beq x k) seen.
 
-Inductive wresult := WDiverge | WCorrupt | WOk (acc : list (bytes * N)).
+(* seen: raw names of the records met so far (newest first); acc: f.Count as
+   an assignment list (newest first) *)
+Inductive wresult := WDiverge | WCorrupt | WOk (seen : list bytes) (acc : list (bytes * N)).
 
-(* the inner loop over one bucket's chain; acc is f.Count so far, newest first *)
-Fixpoint parse_walk (fuel : nat) (sz : N) (bs : bytes) (hdr n off : N) (acc : list (bytes * N)) : wresult :=
-  if off =? 0 then WOk acc else
+(* the inner loop over one bucket's chain *)
+Fixpoint parse_walk (fuel : nat) (sz : N) (bs : bytes) (hdr n off : N) (seen : list bytes)
+    (acc : list (bytes * N)) : wresult :=
+  if off =? 0 then WOk seen acc else
   match fuel with
   | O => WDiverge
   | S f =>
@@ -47,27 +48,27 @@ Fixpoint parse_walk (fuel : nat) (sz : N) (bs : bytes) (hdr n off : N) (acc : li
       match entry_at_sz sz bs hdr off with
       | None => WCorrupt
       | Some (ename, next, v) =>
-          if has_key ename acc then WCorrupt
-          else parse_walk f sz bs hdr (n + 1) next ((decode_stack ename, v) :: acc)
+          if has_name ename seen then WCorrupt
+          else parse_walk f sz bs hdr (n + 1) next (ename :: seen) ((decode_stack ename, v) :: acc)
       end
   end.
 
 (* the outer loop; t is the mapping from the current head's offset on, so that
    the table is traversed once (load32 of the source re-indexes from the start) *)
 Definition head_word (oob : bytes) (sz off : N) (t : bytes) : N :=
-  if sz <=? off then 0 else
+  if sz <? off + 4 then 0 else
   match t with
   | a :: b :: c :: d :: _ => word4 a b c d
   | _ => get32 (t ++ oob) 0
   end.
 
 Fixpoint parse_buckets (oob : bytes) (sz : N) (bs : bytes) (hdr : N) (is : list N) (t : bytes)
-    (acc : list (bytes * N)) : wresult :=
+    (seen : list bytes) (acc : list (bytes * N)) : wresult :=
   match is with
-  | [] => WOk acc
+  | [] => WOk seen acc
   | i :: is' =>
-      match parse_walk (walk_fuel_sz sz) sz bs hdr 0 (head_word oob sz (head_off hdr i) t) acc with
-      | WOk acc' => parse_buckets oob sz bs hdr is' (dropN t 4) acc'
+      match parse_walk (walk_fuel_sz sz) sz bs hdr 0 (head_word oob sz (head_off hdr i) t) seen acc with
+      | WOk seen' acc' => parse_buckets oob sz bs hdr is' (dropN t 4) seen' acc'
       | r => r
       end
   end.
@@ -83,20 +84,14 @@ Definition parse_with (oob bs : bytes) : presult :=
     match parse_meta (split_byte meta c_nl) [] with
     | None => PErrCorrupt
     | Some kv =>
-        match parse_buckets oob sz bs hl (range_from 0 (N.to_nat c_numHash)) (dropN bs (head_off hl 0)) [] with
+        match parse_buckets oob sz bs hl (range_from 0 (N.to_nat c_numHash)) (dropN bs (head_off hl 0)) [] [] with
         | WDiverge => PDiverge
         | WCorrupt => PErrCorrupt
-        | WOk acc => POk kv (rev acc)
+        | WOk _ acc => POk kv (rev acc)
         end
     end.
 
 Definition parse (bs : bytes) : presult := parse_with [] bs.
-
-(* the class of inputs on which a head load leaves the input *)
-Definition oob_head (bs : bytes) : bool :=
-  let hl := get32 bs hdr_np in
-  let sz := len bs in
-  existsb (fun i => let o := head_off hl i in (o <? sz) && (sz <? o + 4)) buckets.
 
 (* map view of an assignment list: the last value of each key, keys in
    order of first assignment *)
@@ -108,17 +103,13 @@ Fixpoint assoc_set {V} (k : bytes) (v : V) (l : list (bytes * V)) : list (bytes 
 Definition last_wins {V} (l : list (bytes * V)) : list (bytes * V) :=
   fold_left (fun acc kv => assoc_set (fst kv) (snd kv) acc) l [].
 
-(* Parse's duplicate test compares the RAW name of a record with the
-   EXPANDED names stored so far.  twin_clash rs: some record's raw name
-   equals the expansion of an earlier record (in walk order); exactly then
-   Parse rejects a well-formed file. *)
+(* diagnostic only: some record's raw name equals the expansion of an earlier
+   record's name (the class in which Parse used to reject well-formed files) *)
 Fixpoint twin_clash_from (seen : list bytes) (rs : list rec) : bool :=
   match rs with
   | [] => false
   | r :: t => existsb (fun k => beq k (r_name r)) seen || twin_clash_from (decode_stack (r_name r) :: seen) t
   end.
-Definition twin_clash (bs : bytes) : bool :=
-  match spec_records bs with Some rs => twin_clash_from [] rs | None => false end.
 
 (* executable oracle for "no invented data": all (expanded name, value) pairs
    of records reachable from a bucket head by next links, read leniently
